@@ -123,7 +123,7 @@ class AsyncSpec(explore.Spec):
         self.tier = tier
 
     def configs(self, tier):
-        dev = 2 if tier == "quick" else 3
+        dev = 3 if tier == "quick" else 4
         return [{"kind": k, "R": 10.0, "max_dev": dev} for k in ("serial", "tcp")]
 
     def make_world(self, cfg):
@@ -219,7 +219,7 @@ def run(tier):
     logging.disable(logging.CRITICAL)
     report = Report(PROP, "model_checking", tier)
     spec = AsyncSpec(tier)
-    explore.run(spec, report, tier, 6 if tier == "quick" else 7, 600000, 300 if tier == "quick" else 1800)
+    explore.run(spec, report, tier, 8 if tier == "quick" else 10, 600000, 300 if tier == "quick" else 1800)
     for v in list(report.violations.values()):
         if v.replay and v.replay.get("kind") == "history" and not explore.confirm(spec, v):
             from ..common import HarnessError
